@@ -16,10 +16,10 @@ P = {
  "C04": ("fault_enumeration", "fault injection with complete enumeration of the failing call index k for every generated drawable/adapter stack; call-log comparison with the fault-free run",
          "For every generated drawable the fault-free call log is recorded and then every k < n is re-run with the k-th target call failing: result must be exactly Err(E(k)), no later call, identical prefix.",
          "Trusted: the logging/fault-injecting target. The set of drawables is generated, the set of fault points per drawable is complete.", "DESIGN.md 4/C04"),
- "C05": ("exploration", "exhaustive small-domain enumeration plus proptest: points() compared with the set {q : contains(q)} on bounding box + margin",
+ "C05": ("exploration", "exhaustive small-domain enumeration plus proptest: points() compared with the set {q : contains(q)} on bounding box + margin; iterator-protocol oracle (provided Iterator methods vs repeated next() on pre-advanced iterators)",
          "Complete enumeration of small rectangles, circles, ellipses, rounded rectangles and grid triangles plus random larger shapes and sectors; both directions (no point missing, none extra, none twice, row-major, inside the box).",
          "contains() is probed on the bounding box plus a margin of 3 pixels only. Zero-area triangles excluded by construction as the statement says.", "DESIGN.md 4/C05"),
- "C06": ("exploration", "property-based testing against a reference renderer built from fill_area()/stroke_area().contains(), plus exact geometric clause on the offset areas",
+ "C06": ("exploration", "property-based testing and complete small-shape enumerations (ellipses <= 64x64 x every inside stroke width, circles, rectangles, rounded rectangles x widths x alignments x colour presence) against a reference renderer built from fill_area()/stroke_area().contains(), plus exact geometric clause on the offset areas and the iterator-protocol oracle on pixels()",
          "Generated closed shapes with strokes often wider than the shape; expected colour of every point computed from the hit-test API and compared with draw() and pixels().",
          "Trusted: contains() of the four shapes (pinned separately by C05/C18).", "DESIGN.md 4/C06"),
  "C07": ("exploration", "metamorphic property-based testing: draw(x.translate(d)) == shift(draw(x), d), same for points(), contains(), bounding_box(), text position",
@@ -34,13 +34,13 @@ P = {
  "C10": ("exploration", "model-based stateful property testing: generated write histories on framebuffers of all depths/orders vs a last-write map and an independent byte-layout reference",
          "Histories of set_pixel/draw_iter/fill_solid/clear/drawables on 14 colour-depth/data-order combinations x row-aligned and unaligned sizes x exact and oversized buffers; read-back, byte image and as_image() compared after every step.",
          "Framebuffer sizes are const generics, so a fixed list of sizes is instantiated.", "DESIGN.md 4/C10"),
- "C11": ("exploration", "exhaustive enumeration (<= 16 bit) and proptest round-trip/frame-condition checks of raw load/store and RawDataSlice iteration against an independent layout reference",
+ "C11": ("exploration", "exhaustive enumeration (<= 16 bit) and proptest round-trip/frame-condition checks of raw load/store and RawDataSlice iteration against an independent layout reference; structured huge indices; buffers to 64 KiB; size_hint / nth on lengths to 16 MiB; iterator-protocol oracle",
          "store/load round trip, untouched neighbours and padding, documented byte/bit layout, out-of-range rejection, iterator == load(0..), nth and size_hint, for 7 raw types x 2 orders.",
          "Buffers up to 9 bytes; 24/32-bit values sampled.", "DESIGN.md 4/C11"),
- "C12": ("exploration", "exhaustive enumeration of every storage value of every colour type with round-trip and documented-layout oracles",
+ "C12": ("exploration", "exhaustive enumeration of every storage value of every colour type with round-trip and documented-layout oracles; RawData::from_u32 on values wider than the type",
          "Every raw storage value of every built-in colour type (24-bit types complete in the thorough tier) checked for round trip, masking, channel accessors, documented bit layout and byte-order functions.",
          "Quick tier strides the four 24-bit types (complete in thorough).", "DESIGN.md 4/C12"),
- "C13": ("exploration", "exhaustive enumeration of source colours for every provided conversion with an exact integer nearest-value oracle",
+ "C13": ("exploration", "exhaustive enumeration of source colours for every provided conversion with an exact integer nearest-value oracle; the 141 named web colours x 8 types against the conversion",
          "All ordered pairs of colour types with a From impl x every source value (<= 16 bit complete; 24-bit per-channel complete on a grid): nearest value, extremes, monotonicity, round trips, gray/binary rules.",
          "RGB->Gray luma is judged against BT.601 within 1.5 levels (the statement fixes only monotonicity, extremes and gray reproduction).", "DESIGN.md 4/C13"),
  "C14": ("exploration", "exhaustive font-data enumeration plus property-based testing against a reference text renderer reading the glyph atlas",
@@ -49,7 +49,7 @@ P = {
  "C15": ("exploration", "metamorphic/relational property-based testing over Text layout (measure vs draw, concatenation, alignment, baseline, line splitting, CRLF)",
          "Generated strings x fonts x alignments x baselines x line heights; relations between API calls compared exactly.",
          "Concatenation is only claimed for fonts without spacing, as stated.", "DESIGN.md 4/C15"),
- "C16": ("exploration", "exhaustive enumeration of rectangle pairs on a small grid with explicit point-set oracles plus proptest on large rectangles",
+ "C16": ("exploration", "exhaustive enumeration of rectangle pairs on a small grid with explicit point-set oracles plus proptest on large (also edge-aligned) rectangles; iterator-protocol oracle on points()",
          "All ordered pairs of the 900 (quick) / 1764 (thorough) grid rectangles and all single-rectangle operations against explicit point sets; random rectangles to +-2^20 against interval arithmetic.",
          "envelope judged by the documented zero-size-counts-as-one rule.", "DESIGN.md 4/C16"),
  "C17": ("exploration", "exhaustive enumeration of small lines x widths plus proptest, judged by exact rational distance to the ideal line",
@@ -61,7 +61,7 @@ P = {
  "C19": ("exploration", "exhaustive grid enumeration plus proptest with exact orientation-test oracles for triangles and a segment-union oracle for polylines",
          "All vertex triples on a small grid and random larger ones: interior covered, nothing further than one pixel from an edge, vertex-order independence, shared-edge agreement; outline = three edge lines (either direction), polyline = concatenated segments.",
          "Each outline edge may be rasterised in either direction.", "DESIGN.md 4/C19"),
- "C20": ("exploration", "model-based stateful property testing of MockDisplay against an independent map, with catch_unwind for the documented panics",
+ "C20": ("exploration", "model-based stateful property testing of MockDisplay against an independent map (pixels, iterators of up to 4300 pixels, fills, clear, set_pixels, draw_pixel; swap_xy / map / from_points), with catch_unwind for the documented panics; patterns of the built-in colour types and of a user-defined ColorMapping with multi-byte characters",
          "Histories of pixel/iterator draws with in/out-of-range and repeated points under the four flag combinations; panics exactly when documented, get_pixel/affected_area/Debug/from_pattern/eq/diff agree with the model.",
          "get_pixel is only called in range (it indexes unchecked by design).", "DESIGN.md 4/C20"),
 }
